@@ -273,8 +273,10 @@ struct C14 : Property
 				arm_faults(op, ctx);
 				const char *s = LIB(json_object_to_json_string_ext(arr, flags));
 				o = s ? std::string("text:") + s : std::string("NULL");
-				if ((unclaimed_global || unclaimed_thread) && s)
-					o = "text:<format with grouping flag active: not compared>";
+				// (with such a format the two passes produce texts of different length, so even which allocation an injected
+				//  failure hits differs: neither the text nor a NULL result is comparable)
+				if (unclaimed_global || unclaimed_thread)
+					o = "<format with grouping flag active: not compared>";
 				check_restored(ctx, before, "json_object_to_json_string_ext", oi);
 				bool fired = g_alloc.fired > 0;
 				tally_faults(ctx);
